@@ -246,11 +246,15 @@ func (o *structFieldsJSON) Get(key string) (json.RawMessage, bool) {
 func (o *structFieldsJSON) Delete(key string) {
 	delete(o.Fields, key)
 
-	for i, existing := range o.Keys {
-		if existing == key {
-			o.Keys = append(o.Keys[:i], o.Keys[i+1:]...)
+	// a JSON document may repeat a member name, in which case key occurs in
+	// Keys more than once: drop every occurrence
+	kept := o.Keys[:0]
+	for _, existing := range o.Keys {
+		if existing != key {
+			kept = append(kept, existing)
 		}
 	}
+	o.Keys = kept
 }
 
 func (o *structFieldsJSON) ToJSON() ([]byte, error) {
